@@ -203,6 +203,45 @@ func ferun(c *Ctx) {
 	if c.Tier == "thorough" {
 		lines = 80
 	}
+	// a fixed project first: an alias of an *imported* function whose local namesake is a target of its own —
+	// `-h` must attribute the alias to the target it runs
+	{
+		mod := "example.com/namesake"
+		path := mod + "/imp/d0/tools"
+		fn := func(doc string) proj.FuncDecl {
+			return proj.FuncDecl{Name: "Build", Params: []proj.Field{}, Results: []proj.Field{}, Doc: doc}
+		}
+		p := &proj.Project{Module: mod, World: map[string]proj.Imported{path: {Name: "tools", Pkg: proj.Pkg{Files: []proj.File{{Name: "lib0.go",
+			Imports: []proj.ImportSpec{}, Funcs: []proj.FuncDecl{fn("Build builds with the tools.")}, Types: []proj.TypeDecl{}}}}}},
+			Main: proj.Pkg{Files: []proj.File{{Name: "magefile0.go", Funcs: []proj.FuncDecl{fn("Build builds locally.")}, Types: []proj.TypeDecl{},
+				Imports: []proj.ImportSpec{{Path: path, Local: "", Paren: true, N: 1, Doc: []string{"// mage:import t"}}},
+				HasAl:   true, Aliases: []proj.AliasEntry{{Key: "b", Ref: proj.FnRef{K: "sel", A: "tools", B: "Build"}}}}}}}
+		dir := filepath.Join(c.Tmp, "namesake")
+		writeProject(dir, p)
+		env := baseEnv(home)
+		static := filepath.Join(dir, "static.bin")
+		fields := commentFields(p)
+		dt, sy := docMaps(p)
+		if cr := runCmd(dir, env, mageBin, "-compile", static); cr.status != 0 {
+			c.Emit(J{"op": "fe.run", "project": p, "fields": fields, "words": []string{}, "conv": J{}}, J{"build": classifyMsg(strings.TrimPrefix(cr.stderr, "Error: ")), "status": cr.status}, "fixed=namesake-alias", "not-built")
+		} else {
+			hw := []string{"build", "t:build", "b"}
+			help := [][]interface{}{}
+			for _, w := range hw {
+				h := runCmd(dir, env, static, "-h", w)
+				help = append(help, []interface{}{h.stdout, h.status})
+			}
+			l := runCmd(dir, env, static, "-l")
+			c.Emit(J{"op": "fe.text", "project": p, "fields": fields, "docText": dt, "syn": sy, "bin": "static.bin", "helpWords": hw, "colorEnv": [][]string{}, "wantUsage": true},
+				J{"list": l.stdout, "listColor": l.stdout, "help": help, "usage": runCmd(dir, env, static, "-h").stdout}, "text", "fixed=namesake-alias")
+			for _, words := range [][]string{{"b"}, {"build"}, {"T:Build", "B"}} {
+				rr := runCmd(dir, env, static, words...)
+				c.Emit(J{"op": "fe.run", "project": p, "fields": fields, "words": words, "conv": convRecord(words), "fail": "", "ignoreDefault": false},
+					J{"calls": parseCalls(rr.stdout), "status": rr.status, "stop": classifyStop(rr), "listed": strings.Contains(rr.stdout, "Targets:")}, "fixed=namesake-alias")
+			}
+		}
+		os.RemoveAll(dir)
+	}
 	for pi := 0; pi < nproj; pi++ {
 		g := &proj.Gen{R: r, BadSigs: r.Chance(1, 2), Imports: true, TagShapes: r.Chance(1, 3), Platform: pi%2 == 1 || r.Chance(1, 3)}
 		if c.Prop == "C07" {
